@@ -2239,11 +2239,12 @@ func repoTagHandler(c web.C, w http.ResponseWriter, r *http.Request) {
 	// create new branch (will just version node if branch name is the same as the parent)
 	newuuid, err := datastore.NewVersion(uuid, jsonData.Note, branch, &uuidTag)
 	if err != nil {
+		// Nothing was created: do not go on to commit whatever node the tag string names.
 		BadRequest(w, r, err)
-	} else {
-		w.Header().Set("Content-Type", "application/json")
-		fmt.Fprintf(w, "{%q: %q}", "child", newuuid)
+		return
 	}
+	w.Header().Set("Content-Type", "application/json")
+	fmt.Fprintf(w, "{%q: %q}", "child", newuuid)
 
 	// send tag op to kafka
 	msginfo := map[string]interface{}{
